@@ -470,5 +470,180 @@ func ruleL4(p *Prog) *RuleResult {
 			res.bad("GetFrozenSizeInBytes == FreezeTo.serialSize", "-", fmt.Sprintf("%s vs %s", a, b))
 		}
 	}
+	// ---- type codes are checked exhaustively before containers are built ----
+	if f := p.Func("(*roaring.roaringArray).frozenView"); f != nil {
+		typeCodeTotality(p, f, res)
+	}
 	return res
+}
+
+// typeCodeTotality: the reader dispatches on a one-byte type code twice (a counting/validating loop, then
+// the loop that builds the containers). Every byte value that the building loop would not handle must be
+// rejected by the validating loop; otherwise its slot stays a nil container. The byte has 256 values, so the
+// branch structure is simply evaluated for each of them.
+func typeCodeTotality(p *Prog, f *ssa.Function, res *RuleResult) {
+	type chain struct {
+		t       ssa.Value
+		matched map[int64]bool
+		errs    map[int64]bool
+		fall    []int64
+	}
+	var chains []*chain
+	for _, b := range f.Blocks {
+		for _, ins := range b.Instrs {
+			ld, ok := ins.(*ssa.UnOp)
+			if !ok || ld.Op != token.MUL {
+				continue
+			}
+			ia, ok := ld.X.(*ssa.IndexAddr)
+			if !ok {
+				continue
+			}
+			bt, ok := ld.Type().Underlying().(*types.Basic)
+			if !ok || bt.Kind() != types.Uint8 {
+				continue
+			}
+			_ = ia
+			// is it compared for equality with at least two constants?
+			eq := 0
+			if ld.Referrers() != nil {
+				for _, r := range *ld.Referrers() {
+					if bo, ok := r.(*ssa.BinOp); ok && bo.Op == token.EQL {
+						if _, isC := constIntVal(bo.Y); isC {
+							eq++
+						}
+					}
+				}
+			}
+			if eq < 2 {
+				continue
+			}
+			ch := &chain{t: ld, matched: map[int64]bool{}, errs: map[int64]bool{}}
+			for v := int64(0); v < 256; v++ {
+				blk := ld.Block()
+				outcome := "fall"
+				for steps := 0; steps < 64; steps++ {
+					last := blk.Instrs[len(blk.Instrs)-1]
+					if r, ok := last.(*ssa.Return); ok {
+						if failureReturn(f, r) {
+							outcome = "err"
+						}
+						break
+					}
+					ifi, ok := last.(*ssa.If)
+					if !ok {
+						if j, ok := last.(*ssa.Jump); ok && steps > 0 && len(blk.Instrs) == 1 {
+							_ = j
+							blk = blk.Succs[0]
+							continue
+						}
+						break
+					}
+					bo, ok := ifi.Cond.(*ssa.BinOp)
+					if !ok || bo.X != ssa.Value(ld) {
+						break
+					}
+					k, isC := constIntVal(bo.Y)
+					if !isC {
+						break
+					}
+					var truth bool
+					switch bo.Op {
+					case token.EQL:
+						truth = v == k
+					case token.NEQ:
+						truth = v != k
+					case token.LSS:
+						truth = v < k
+					case token.LEQ:
+						truth = v <= k
+					case token.GTR:
+						truth = v > k
+					case token.GEQ:
+						truth = v >= k
+					default:
+						steps = 64
+						continue
+					}
+					if truth && bo.Op == token.EQL {
+						outcome = "match"
+						break
+					}
+					if truth {
+						blk = blk.Succs[0]
+					} else {
+						blk = blk.Succs[1]
+					}
+					// a decision block is either the block of the load itself or a pure compare block; a
+					// target that does other work ends the decision region
+					if blk != ld.Block() {
+						lastT := blk.Instrs[len(blk.Instrs)-1]
+						if _, isRet := lastT.(*ssa.Return); isRet {
+							continue
+						}
+						if nif, isIf := lastT.(*ssa.If); isIf {
+							if nb, ok := nif.Cond.(*ssa.BinOp); ok && nb.X == ssa.Value(ld) {
+								continue
+							}
+						}
+						break
+					}
+				}
+				switch outcome {
+				case "match":
+					ch.matched[v] = true
+				case "err":
+					ch.errs[v] = true
+				default:
+					ch.fall = append(ch.fall, v)
+				}
+			}
+			chains = append(chains, ch)
+		}
+	}
+	c := "(*roaring.roaringArray).frozenView|type codes checked exhaustively"
+	if len(chains) == 0 {
+		res.undecided(c, p.pos(f.Pos()), "no dispatch on a one-byte type code found")
+		return
+	}
+	// the validating chain is the one that can reject
+	var val *chain
+	for _, ch := range chains {
+		if len(ch.errs) > 0 {
+			val = ch
+		}
+	}
+	if val == nil {
+		res.bad(c, p.pos(f.Pos()), "no loop over the type codes rejects anything: an unknown code leaves a nil container in the table")
+		return
+	}
+	// every value that is neither rejected nor matched there falls through; and every value accepted there
+	// must be handled by every other (building) dispatch
+	var unhandled []string
+	for _, v := range val.fall {
+		unhandled = append(unhandled, fmt.Sprint(v))
+	}
+	for _, ch := range chains {
+		if ch == val {
+			continue
+		}
+		for v := range val.matched {
+			if !ch.matched[v] {
+				unhandled = append(unhandled, fmt.Sprintf("%d (accepted by the check, not built)", v))
+			}
+		}
+	}
+	if len(unhandled) > 0 {
+		if len(unhandled) > 6 {
+			unhandled = append(unhandled[:6], "...")
+		}
+		res.bad(c, p.ipos(val.t.(ssa.Instruction)), "type code value(s) "+strings.Join(unhandled, ", ")+" pass the validation loop without matching a case: the building loop leaves a nil container for them and the next query dereferences it")
+		return
+	}
+	var ms []string
+	for v := range val.matched {
+		ms = append(ms, fmt.Sprint(v))
+	}
+	sort.Strings(ms)
+	res.ok(c, p.ipos(val.t.(ssa.Instruction)), fmt.Sprintf("all 256 byte values evaluated: {%s} handled, the other %d rejected with an error", strings.Join(ms, ","), len(val.errs)))
 }
